@@ -217,6 +217,15 @@ func run(t *testing.T, sc Scenario) *core.Result {
 		written := map[fkey][]*wrec{}
 		fwdG := map[fkey]map[int]uint64{} // when the server-side stream was given packet c
 		var wmu sync.Mutex
+		fwdRetG := map[fkey]map[int]uint64{} // when that write call returned (0 = it never did)
+		setRet := func(k fkey, c int) {
+			wmu.Lock()
+			if fwdRetG[k] == nil {
+				fwdRetG[k] = map[int]uint64{}
+			}
+			fwdRetG[k][c] = w.Log.NextG()
+			wmu.Unlock()
+		}
 
 		mkPkt := func(mi int, pt uint8, c int) *rtp.Packet {
 			p := make([]byte, 0, 40)
@@ -269,6 +278,9 @@ func run(t *testing.T, sc Scenario) *core.Result {
 					}
 				}
 				st.WritePacketRTP(m, pkt) //nolint:errcheck
+				if len(pkt.Payload) >= 22 {
+					setRet(fkey{mi, pkt.PayloadType}, int(binary.BigEndian.Uint32(pkt.Payload[18:])))
+				}
 			}
 			p := gortsplib.ProtocolTCP
 			if sc.PubTr == "udp" {
@@ -321,6 +333,7 @@ func run(t *testing.T, sc Scenario) *core.Result {
 						wmu.Unlock()
 						if sc.Source == "stream" {
 							stream.WritePacketRTP(medias[mi], pkt) //nolint:errcheck
+							setRet(k, c)
 						} else {
 							pub.WritePacketRTP(medias[mi], pkt) //nolint:errcheck
 						}
@@ -543,6 +556,11 @@ func run(t *testing.T, sc Scenario) *core.Result {
 							if c >= wrapCounter && (first < 0 || c < first) {
 								first, firstG = c, g
 							}
+						}
+						// the write may still have been in progress (held at a yield point inside the
+						// stream) when this reader's SETUP built its MIKEY message
+						if rg, ok := fwdRetG[k][first]; first >= 0 && (!ok || rg >= rs.setupG) {
+							firstG = rs.setupG
 						}
 						if first >= 0 && firstG >= rs.setupG {
 							w.Probe("srtp_wrap_before_first_packet_waived")
